@@ -86,10 +86,25 @@ package parser
 // parseNode dispatches through the prefix / infix function-value tables, which are outside the verified
 // subset: that those functions return nil or a real node is assumed.
 //@ func (*Parser).parseNode
-//@ trusted
+//@ trusted except C03.parser.depth.restore
+//@ props C03
 //@ modcomps H_ E_ MD_ MV_ G_ C_
 //@ ensures result == nil || ref(result) != nil
 //@ ensures old(PInv(p)) ==> PInv(p)
+//@ assume[recv.nonnil] p != nil
+//@ ensures[C03.parser.depth.restore] p.depth == old(p.depth)
+
+// C03 (native stack exhaustion by deeply nested source): the parser, the compiler and the tree's methods recurse
+// over the syntax tree, so the parser bounds the depth of the tree it builds (KF-57 fixed). Every call through the
+// prefix / infix / postfix function tables - the only places where parsing recurses - is made with the depth
+// counter within MaxDepth, and parseNode restores the counter on return, so the counter is the nesting depth.
+//@ func (*Parser).parseNodeAtDepth
+//@ props C03
+//@ trusted callpre
+//@ assume[recv.nonnil] p != nil
+//@ dyncall[C03.parser.depth] prefixParseFn: p.depth <= MaxDepth
+//@ dyncall[C03.parser.depth] infixParseFn: p.depth <= MaxDepth
+//@ dyncall[C03.parser.depth] postfixParseFn: p.depth <= MaxDepth
 
 //@ func (*Parser).parseAssignmentValue
 //@ trusted
